@@ -128,7 +128,7 @@ pub fn test_config(storage_uri: StorageUri, data_dir: &Path, opts: &Opts) -> Con
         bgp_riswhois_refresh_interval: ConfigDefaults::bgp_riswhois_refresh_interval(),
         roa_aggregate_threshold: opts.roa_aggregate_threshold,
         roa_deaggregate_threshold: opts.roa_deaggregate_threshold,
-        issuance_timing: opts.timing.clone().unwrap_or_else(default_timing),
+        issuance_timing: default_timing(),
         rrdp_updates_config: opts.rrdp.clone(),
         metrics: MetricsConfig {
             metrics_hide_ca_details: false,
@@ -141,5 +141,10 @@ pub fn test_config(storage_uri: StorageUri, data_dir: &Path, opts: &Opts) -> Con
         ta_timing: opts.ta_timing.clone().unwrap_or_default(),
     };
     res.process().expect("config.process");
+    // Timing regimes outside what `Config::verify` accepts (margin >= lifetime) are set after
+    // processing: they are how the harness reaches the "due" regime without moving the clock.
+    if let Some(t) = opts.timing.clone() {
+        res.issuance_timing = t;
+    }
     res
 }
